@@ -63,6 +63,8 @@ TEMPLATES = [
      '<use id="u2" xlink:href="#dp" x="20" y="20" fill="green"/>'
      '<text id="t1" x="3" y="30" font-size="4">txt</text><foo id="x1" bar="1"/>'
      '<g id="g3" display="none"><rect id="hidden" width="1" height="1"/></g>'
+     '<g id="gx" stroke="#070"><use id="ux" xlink:href="#dr" x="40" fill="#321"/><circle id="gc" cx="45" cy="5" r="1"/></g>'
+     '<use id="uy" xlink:href="#gx" y="12"/>'
      '<ellipse id="e1" cx="30" cy="30" rx="4" ry="2" fill="url(#pat)"/>'
      '<line id="last" x1="0" y1="0" x2="9" y2="9" stroke="black"/></svg>') % NS,
     ('<svg %s id="root" width="120" height="80">'
